@@ -47,6 +47,12 @@ CLAIMS = {
  'C18': dict(engine='mirsym', technique='bounded symbolic execution of the MIR of diff(), Diff::next, MergeTrees::next, EntryChange::diff_metadata, EntryMetadata::from and of backup() with a change callback, against an independently written classification; native replay on a raw archive + live tree',
    text='For each presence pattern of up to three paths (stored only / live only / both) with kind chosen by the solver on each side and size, mtime, mode symbolic, stored owner present or absent, two link targets: diff (with and without include_unchanged) and the next backup\'s callback report exactly added, removed and changed paths with the right classification.',
    note='Trusted: MIR printer, mirsym + models, Timestamp model, store/source models, z3. Directories and symlinks are not reported by the backup callback (files only, as the property says).', design='§3 C18'),
+ 'C09': dict(engine='mirsym', category='fault_enumeration', technique='bounded symbolic execution of the MIR of Archive::validate, validate_bands, validate_stored_tree, Band::validate, BlockDir::validate and the Stitch reader over the store model; the damaged file and the kind of damage are solver variables and "some version no longer restores as before" is decided by running the real reader before and after the damage; healthy side: the real backup() then the real validate',
+   text='Damage side: for a one-version and a two-version history (newer band closed or open), every stored file deleted, emptied, made undecodable or (blocks) altered-but-decodable: whenever some version no longer lists/restores as before, full validation reports an error, and quick validation does unless only block contents changed. Healthy side: full and quick validation are silent on archives written by fault-free backups (one or two versions) and by backups interrupted after their header at every crash point.',
+   note='Trusted: as C03; altered block bytes are modelled as "decodes to other content", the real Snappy/BLAKE2 code is not executed. Removal of a BANDTAIL, and deletion of a hunk of a band that has no tail (identical to an earlier interruption), are legal states and excluded.', design='§3 C09'),
+ 'C10': dict(engine='kani+mirsym', category='fault_enumeration', technique='bounded symbolic execution of the MIR of restore / list (Stitch) / validate / backup over an archive in which one index entry has solver-chosen decoded field values, or one stored file has solver-chosen damage; Kani kernel for the admitted mtime range',
+   text='Decoded-field layer: with kind, mtime (any i64), nanos (any u32), target presence, an address with any start/len into a present or missing block, odd apaths and an unparseable band version, none of restore, list, validate, backup panics, and entries are not dropped without an error being reported. Containment layer: for one- and two-version histories with any single file deleted / emptied / garbage / altered, restore of every version does not panic, files whose hunk and blocks are untouched are restored exactly, lost or altered files are reported, and after deletion or truncation a new backup completes and is exact. Kani: every (mtime, nanos) admitted by IndexEntry::check() is safe for IndexEntry::mtime/ToFileTime.',
+   note='Trusted: as C01/C03. Third-party decoders (snap, serde_json, hex, semver) are not executed: their robustness and hangs are outside; a band whose head is gone is not a version, what other versions stitched through it is outside.', design='§3 C10'),
 }
 NA = {
  'C15': 'exclusion semantics live in globset/regex automata, which neither Kani nor the MIR interpreter can execute; a model of glob matching would verify the model, not conserve (DESIGN §4)',
